@@ -139,7 +139,7 @@ func inductionValue(v ssa.Value) bool {
 			if c, ok := constInt(x.Y); ok && c != 0 {
 				if ph, ok := x.X.(*ssa.Phi); ok {
 					for _, e := range ph.Edges {
-						if e == ssa.Value(x) {
+						if unwrapLoad(e) == ssa.Value(x) {
 							return true
 						}
 					}
@@ -148,7 +148,7 @@ func inductionValue(v ssa.Value) bool {
 		}
 	case *ssa.Phi:
 		for _, e := range x.Edges {
-			if b, ok := e.(*ssa.BinOp); ok && b.X == ssa.Value(x) && (b.Op == token.ADD || b.Op == token.SUB) {
+			if b, ok := e.(*ssa.BinOp); ok && unwrapLoad(b.X) == ssa.Value(x) && (b.Op == token.ADD || b.Op == token.SUB) {
 				if c, ok := constInt(b.Y); ok && c != 0 {
 					return true
 				}
@@ -373,6 +373,15 @@ func perIterationOK(fn *ssa.Function, fc *fanClosure, w cell) string {
 		if sts[0].Parent() != fn {
 			return "index variable " + a.Comment + " is written inside a goroutine"
 		}
+		if isAddrExpr(sts[0].Val) {
+			// a pointer to one element: the element's index must be the induction value
+			for _, iv := range indexValues(sts[0].Val) {
+				if inductionValue(iv) {
+					return ""
+				}
+			}
+			return "pointer variable " + a.Comment + " does not point to a distinct element per iteration"
+		}
 		if !inductionValue(sts[0].Val) {
 			return "index variable " + a.Comment + " does not take a distinct value per iteration"
 		}
@@ -485,7 +494,7 @@ func parentAccessesBetween(fn *ssa.Function, after *ssa.Go, gos []*ssa.Go, waits
 			for _, g := range gos {
 				if mc, ok := g.Call.Value.(*ssa.MakeClosure); ok {
 					for _, bnd := range mc.Bindings {
-						if bnd == ssa.Value(a) && !dominatesInstr(in, g) {
+						if unwrapLoad(bnd) == ssa.Value(a) && !dominatesInstr(in, g) {
 							fresh = false
 						}
 					}
